@@ -9,33 +9,60 @@ namespace C11
 /-- same type and payload, or same error, as decoding alone (whenever it returns at all) -/
 theorem agrees (c : Ctx) (p buf : Bytes) (h : (process c p buf).2.1.isPanic = false) :
     (process c p buf).2.1.map (·.1) = decode p := by
-  sorry
+  rcases Proc.process_cases c p buf with ⟨_, hp⟩ | ⟨_, _, _, c', k, _, hp⟩ | ⟨_, _, hd, c', cc, rest, _, _, _, _, _, hp⟩
+  · rw [hp]
+    cases decode p <;> rfl
+  · rw [hp] at h; simp [Out.isPanic] at h
+  · rw [hp, hd]; rfl
 
 /-- no response reported ⇒ every byte of the response buffer is unchanged -/
 theorem no_response_frame (c : Ctx) (p buf : Bytes)
     (h : ∀ d n, (process c p buf).2.1 ≠ .ok (d, some n)) :
     (process c p buf).2.2 = buf := by
-  sorry
+  rcases Proc.process_cases c p buf with ⟨_, hp⟩ | ⟨_, _, _, c', k, _, hp⟩ | ⟨_, _, hd, c', cc, rest, _, _, _, _, _, hp⟩
+  · rw [hp]
+  · rw [hp]
+  · exact absurd (by rw [hp]) (h _ _)
 
 /-- a response is reported only for accepted control requests; bytes beyond it are unchanged -/
 theorem response_frame (c : Ctx) (p buf : Bytes) (d : Dec) (n : Nat)
     (h : (process c p buf).2.1 = .ok (d, some n)) :
     Spec.isAcceptedRequest p = true ∧ (process c p buf).2.2.length = buf.length ∧
     (process c p buf).2.2.drop n = buf.drop n ∧ n ≤ buf.length := by
-  sorry
+  rcases Proc.process_cases c p buf with ⟨_, hp⟩ | ⟨_, _, _, c', k, _, hp⟩ | ⟨ha, _, hd, c', cc, rest, _, _, _, hle, _, hp⟩
+  · rw [hp] at h
+    cases hdec : decode p <;> simp [hdec, Out.map] at h
+  · rw [hp] at h; simp at h
+  · rw [hp] at h ⊢
+    simp only [Out.ok.injEq, Prod.mk.injEq, Option.some.injEq] at h
+    obtain ⟨_, rfl⟩ := h
+    have hl := Proc.respPkt_length c.address (byteAt p 6) (byteAt p 10) (cc :: rest)
+    have hl' : (Proc.respPkt c.address (byteAt p 6) (byteAt p 10) (cc :: rest)).length = 13 + rest.length := by
+      rw [hl]; simp; omega
+    refine ⟨ha, ?_, List.drop_left' hl', hle.1⟩
+    have := hle.1
+    simp only [List.length_append, List.length_drop, hl']
+    omega
 
 /-- everything that is not a control request gets no response -/
 theorem non_request_none (c : Ctx) (p buf : Bytes) (r : Dec × Option Nat)
     (h : (process c p buf).2.1 = .ok r) (hn : (Spec.isControl p && Spec.isRequest p) = false) :
     r.2 = none := by
-  sorry
+  rcases Proc.process_cases c p buf with ⟨_, hp⟩ | ⟨_, _, _, c', k, _, hp⟩ | ⟨ha, _, hd, c', cc, rest, _, _, _, hle, _, hp⟩
+  · rw [hp] at h
+    cases hdec : decode p <;> simp [hdec, Out.map] at h
+    rw [← h]
+  · rw [hp] at h; simp at h
+  · obtain ⟨_, _, hc, hr, _, _⟩ := (Proc.acceptedRequest_iff p).mp ha
+    simp [hc, hr] at hn
 
 /-- conversely, accepted control requests outside the D11 classes are answered -/
 theorem requests_answered (c : Ctx) (p buf : Bytes)
     (hc : Spec.configOk c = true) (hb : 64 ≤ buf.length)
     (ha : Spec.answerable c.vendorIds.length p = true) :
     ∃ d n, (process c p buf).2.1 = .ok (d, some n) := by
-  sorry
+  obtain ⟨c', cc, rest, _, _, _, _, hp⟩ := Proc.process_answerable c p buf hc hb ha
+  exact ⟨_, _, by rw [hp]⟩
 
 end C11
 end Mctp
